@@ -37,6 +37,9 @@ def scenario(rng, kind, tier):
         sc['opts'] = dict(covariance_norm=['eigenvalue', 'trace', False][int(rng.integers(3))],
                           affiliation_eps=[1e-10, 0.0, 1e-3][int(rng.integers(3))],
                           hermitize=bool(rng.integers(2)))
+        fl = [None, None, 0.05, 0.2, 1e-3][int(rng.integers(5))]
+        if fl is not None:
+            sc['opts']['eigenvalue_floor'] = fl
         sc['sam'] = bool(rng.integers(3) == 0)
         sc['aligner'] = bool(rng.integers(4) == 0) and nlead == 1
     elif kind == 'gmm':
@@ -123,7 +126,10 @@ def cases(tier, seed, args):
                 sc['init'] = 'hard'
             if i % 4 == 1:
                 sc['saliency'] = True
-                sc['sal_scale'] = [1e-14, 1e6, 1e-9, 1.0][(i // 4) % 4]
+                sc['sal_scale'] = [1e-14, 1e6, 1e-9, 1.0, 1e-18, 1e-30][(i // 4) % 6]
+            if i % 7 == 3 and not sc.get('sam'):
+                sc['init'] = 'soft'
+                sc['tiny_class'] = [1e-19, 1e-25][(i // 7) % 2]      # one class with positive but tiny mass on every frame
             if sc['kind'] == 'cwmm' and i % 2:
                 sc['regime'] = 'separable'
             if sc['kind'] == 'cbmm':
@@ -247,6 +253,9 @@ def model_case(case, want=('predict', 'fit_predict', 'estep')):
     kind, L, K, D, N = case['kind'], case['L'], case['K'], case['D'], case['N']
     data = ml.make_data(rng, kind, L, K, D, N, regime=case['regime'], E=case.get('E'), dtype=case['dtype'])
     init = ml.make_init(rng, L, K, N, style=case['init'])
+    if case.get('tiny_class'):
+        init[..., 0, :] = case['tiny_class']
+        init = init / init.sum(-2, keepdims=True)
     opts = dict(case['opts'])
     wca = case['wca']
     opts['weight_constant_axis'] = wca_arg(case)
@@ -259,7 +268,7 @@ def model_case(case, want=('predict', 'fit_predict', 'estep')):
         opts['saliency'] = rng.uniform(0.1, 2.0, size=(*L, N)) * case.get('sal_scale', 1.0)
     if case.get('aligner'):
         opts['inline_permutation_aligner'] = _aligner_for(L[0], rng)
-    fp = f'model={kind};wca={wca};regime={case["regime"]};init={case["init"]};opts={ {k: v for k, v in case["opts"].items()} };' \
+    fp = f'model={kind};wca={wca};regime={case["regime"]};init={case["init"]}{"+tiny" if case.get("tiny_class") else ""};opts={ {k: v for k, v in case["opts"].items()} };' \
          f'sam={bool(case.get("sam"))};sal={case["saliency"]};aligner={bool(case.get("aligner"))};lead={len(L)}'
     recs = []
     events = []
